@@ -85,6 +85,9 @@ def verify_function(qualname: str, contract: Contract) -> FunctionReport:
     try:
         pre = contract.pre(s0, a)
         path.assume(*pre.values())
+        if hasattr(contract, "reveal"):
+            # definitional unfoldings (opaque/reveal): assumed in the body check only
+            path.assume(*contract.reveal(s0, a).values())
         rep.pre_sat = path.feasible()
         if not rep.pre_sat:
             rep.error = "precondition unsatisfiable (vacuous contract)"
@@ -96,11 +99,20 @@ def verify_function(qualname: str, contract: Contract) -> FunctionReport:
             contract.ghost_entry(path, a)
         outcomes = ex.exec_block(node.body, path)
         alloc0 = s0["ghost.alloc"]
-        for p, oc in outcomes:
+        pending_outcomes = list(outcomes)
+        while pending_outcomes:
+            p, oc = pending_outcomes.pop(0)
             run.paths_explored += 1
             if isinstance(oc, (Ret, Norm)):
                 rep.normal_paths += 1
                 r = oc.v if isinstance(oc, Ret) else NoneV()
+                from .core import Coro
+                if contract.is_async and isinstance(r, Coro):
+                    # a plain `def` that returns the coroutine of its callee: the contract speaks
+                    # about the awaited result
+                    sub = ex.await_value(p, r)
+                    pending_outcomes += [(p2, (Ret(v2) if not isinstance(v2, Raise) else v2)) for p2, v2 in sub]
+                    continue
                 r = coerce_result(ex, p, r, contract.returns)
                 if hasattr(contract, "ghost_exit"):
                     contract.ghost_exit(p, a, r)
@@ -206,10 +218,17 @@ def _solve_canary(idx, text):
 
 
 def _solve_one(args):
-    idx, text, want_model = args
+    idx, text, want_model = args[:3]
+    skip_z3 = len(args) > 3 and args[3]
     if not want_model:
         return _solve_canary(idx, text)
     t0 = time.time()
+    if skip_z3:
+        return _solve_cli(idx, text, t0)
+    return _solve_z3_then_cli(idx, text, t0)
+
+
+def _solve_z3_then_cli(idx, text, t0):
     # 1. z3 5.x default (proof search: e-matching + MBQI); 2. z3 5.x with e-matching off, which makes
     # MBQI find counter-models of quantified path conditions that the default strategy loops on.
     for backend, opts, tmo in (("z3-5.1", {}, Z3_TIMEOUT_MS // 2),
@@ -232,7 +251,11 @@ def _solve_one(args):
                 return idx, "failed", backend, (time.time() - t0) * 1000, mt
         except Exception:  # parse error etc.
             pass
-    # 2. cvc5, 3. z3 4.8 on the same SMT-LIB text
+    return _solve_cli(idx, text, t0)
+
+
+def _solve_cli(idx, text, t0):
+    # cvc5, then z3 4.8, on the same SMT-LIB text
     with tempfile.NamedTemporaryFile("w", suffix=".smt2", delete=False) as f:
         f.write(text)
         fn = f.name
@@ -255,24 +278,81 @@ def _solve_one(args):
     return idx, "unknown", "", (time.time() - t0) * 1000, ""
 
 
+_POOL_OBS: List[Obligation] = []
+
+
+def _check_goal(base_pc, goal, opts, tmo):
+    s = z3.Solver()
+    s.set("timeout", tmo)
+    for k2, v2 in opts.items():
+        s.set(k2, v2)
+    s.add(*GLOBAL_AXIOMS)
+    s.add(*base_pc)
+    s.add(z3.Not(goal))
+    r = s.check()
+    if r == z3.sat:
+        try:
+            return "failed", str(s.model())[:8000]
+        except Exception:
+            return "failed", "(model unavailable)"
+    return ("discharged" if r == z3.unsat else "unknown"), ""
+
+
+def _solve_group(idxs):
+    """Worker: obligations are inherited through fork (no serialisation); the group shares one
+    path condition."""
+    out = []
+    for idx in idxs:
+        ob = _POOL_OBS[idx]
+        t0 = time.time()
+        if ob.kind == "canary":
+            st, _ = _check_goal(ob.pc, ob.goal, {}, 3000)
+            out.append((idx, st, "z3-5.1", (time.time() - t0) * 1000, ""))
+            continue
+        done = False
+        for backend, opts, tmo in (("z3-5.1", {}, Z3_TIMEOUT_MS // 2),
+                                   ("z3-5.1-mbqi", {"smt.ematching": False}, Z3_TIMEOUT_MS // 2)):
+            try:
+                st, mt = _check_goal(ob.pc, ob.goal, opts, tmo)
+            except z3.Z3Exception as e:
+                st, mt = "unknown", str(e)
+            if st != "unknown":
+                out.append((idx, st, backend, (time.time() - t0) * 1000, mt))
+                done = True
+                break
+        if done:
+            continue
+        r = _solve_one((idx, to_smt2(ob), True, True))
+        out.append((idx, r[1], r[2], (time.time() - t0) * 1000, r[4]))
+    return out
+
+
 def discharge(obligations: List[Obligation], procs: int = 0):
-    """Discharge all obligations (in place)."""
+    """Discharge all obligations (in place): z3 5.x (default, then MBQI-only) in forked workers,
+    then cvc5 and z3 4.8 on the SMT-LIB text for whatever is still unknown."""
+    global _POOL_OBS
     procs = procs or int(os.environ.get("PYVC_PROCS", "0")) or min(16, os.cpu_count() or 4)
-    jobs = []
+    groups: Dict[tuple, List[int]] = {}
     for i, ob in enumerate(obligations):
-        g = ob.goal
-        if z3.is_true(g):
+        if z3.is_true(ob.goal):
             ob.status, ob.backend = "discharged", "trivial"
             continue
-        jobs.append((i, to_smt2(ob), ob.kind != "canary"))
-    if not jobs:
+        key = tuple(f.get_id() for f in ob.pc)
+        groups.setdefault(key, []).append(i)
+    tasks = []
+    for idxs in groups.values():
+        for k in range(0, len(idxs), 12):
+            tasks.append(idxs[k:k + 12])
+    if not tasks:
         return
-    if procs == 1 or len(jobs) < 4:
-        results = map(_solve_one, jobs)
+    _POOL_OBS = obligations
+    if procs == 1 or len(tasks) < 2:
+        results = [_solve_group(t) for t in tasks]
     else:
         ctx = mp.get_context("fork")
         with ctx.Pool(procs) as pool:
-            results = pool.map(_solve_one, jobs, chunksize=max(1, len(jobs) // (procs * 4)))
-    for idx, status, backend, ms, mt in results:
-        ob = obligations[idx]
-        ob.status, ob.backend, ob.ms, ob.model_text = status, backend, ms, mt
+            results = pool.map(_solve_group, sorted(tasks, key=len, reverse=True), chunksize=1)
+    for res in results:
+        for idx, status, backend, ms, mt in res:
+            ob = obligations[idx]
+            ob.status, ob.backend, ob.ms, ob.model_text = status, backend, ms, mt
